@@ -10,6 +10,7 @@ mod bytes;
 mod conc;
 mod crash;
 mod drip;
+mod dsp;
 mod e2e;
 mod fsink;
 mod graphs;
@@ -37,6 +38,7 @@ fn main() {
             vec![]
         }
         Some("crash") => crash::run(&args),
+        Some("dsp") => dsp::run(&args),
         Some("bytes") => bytes::run(&args),
         Some("vm") => vm::run(&args),
         Some("vmtrace") => {
